@@ -1,0 +1,10 @@
+//go:build !verif
+
+// Package verifhook provides yield points used by external verification
+// harnesses. Without the "verif" build tag every function is an empty,
+// inlinable no-op.
+package verifhook
+
+// Yield marks a named point at which a verification harness may pause or
+// observe the calling goroutine. It does nothing in regular builds.
+func Yield(string) {}
